@@ -38,6 +38,35 @@ def u3 : UnionDef :=
                 { cls := "ns.UP", tags := [td "y" none] },
                 { cls := "ns.UC", tags := [td "z" none, td "cz" (some "c")] } ] }
 
+/-- one plain struct with a public field and a field omitted for "c"; one union with a public tag, a
+tag omitted for "c" and a public struct-valued tag -/
+def env0 : Env :=
+  { structs := [ { cls := "ns.S", subtypes := none, catchAll := false,
+                   levels := [ { cls := "ns.S", fields := [fd "a" none, fd "sec" (some "c")] } ] },
+                 { cls := "ns.R", subtypes := some [(["s"], "ns.RS", false)], catchAll := false,
+                   levels := [ { cls := "ns.R", fields := [fd "r" none] } ] },
+                 { cls := "ns.RS", subtypes := none, catchAll := false,
+                   levels := [ { cls := "ns.R", fields := [fd "r" none] },
+                               { cls := "ns.RS", fields := [fd "q" none, fd "rsec" (some "c")] } ] } ],
+    unions := [ { cls := "ns.U", catchAll := none,
+                  levels := [ { cls := "ns.U", tags := [td "pub" none, td "hid" (some "c"),
+                    { name := "st", ty := .struct {} "ns.S", omitted := none }] } ] } ] }
+
+def sS : StructDef :=
+  { cls := "ns.S", subtypes := none, catchAll := false,
+    levels := [ { cls := "ns.S", fields := [fd "a" none, fd "sec" (some "c")] } ] }
+
+def v0 : PyVal := .struct "ns.S" [("a", .str "x"), ("sec", .str "y")]
+def vRS : PyVal := .struct "ns.RS" [("r", .str "x"), ("q", .str "y"), ("rsec", .str "z")]
+
+def keysOf : R JVal → Option (List String)
+  | .ok (.obj kvs) => some (kvs.map (·.1))
+  | _ => none
+
+def isVerrR {α} : R α → Bool
+  | .error (.verr _) => true
+  | _ => false
+
 end Ex
 
 /-! ### 1. The generated per-caller tables hold exactly the declared members visible to the caller -/
@@ -118,5 +147,288 @@ theorem ctorValidator_finds_every_tag (u : UnionDef) (t : TagDef) (ht : t ∈ u.
 
 example : (Ex.u3.ctorValidator "gx").isSome = true ∧ (Ex.u3.ctorValidator "cz").isSome = true ∧
     (Ex.u3.ctorValidator "y").isSome = true ∧ (Ex.u3.ctorValidator "nope").isSome = false := by decide
+
+/-! ### 2. Omitted members are absent from encodings for callers without the permission
+
+`encode` is one recursive function: every nested struct, list item, map value and union payload is
+encoded by a recursive call of `encode` at the member's type, so the statements below, which are
+quantified over every type position `t`/value `v`, hold for the object produced at every nesting
+depth of an encoding. -/
+
+/-- Every key of the object `encode` produces at a struct type names a field of the caller's table.
+The side condition excludes the one way a JSON object can be produced without going through the
+field table: the redaction short-cut applied to a Python `dict` that sits where a struct is expected
+(an ill-typed value, which redaction does not validate; its keys are copied). -/
+theorem struct_keys_in_table (E : Ext) (env : Env) (perms : List String) (redact norm : Bool) (fl : Flags)
+    (cls : String) (v : PyVal) (kvs : List (String × JVal)) (s : StructDef)
+    (hs : env.struct? cls = some s)
+    (hv : redact = false ∨ ∀ d, v ≠ .dict d)
+    (h : encode E env perms redact norm (.struct fl cls) v = .ok (.obj kvs)) :
+    ∀ k ∈ kvs.map (·.1), k ∈ (s.fieldsFor perms).map (·.name) := by
+  rcases encode_struct_inv h with ⟨hr, r, hrv⟩ | ⟨_, _, hj⟩ | ⟨c, slots, s', kvs', _, hs', ha, hj⟩
+  · obtain ⟨d, hd⟩ := redactValue_obj_dict hrv
+    rcases hv with hv | hv
+    · rw [hr] at hv; cases hv
+    · exact absurd hd (hv d)
+  · cases hj
+  · rw [hs] at hs'
+    cases hs'
+    cases hj
+    exact assembleStruct_keys _ _ _ _ ha
+
+/-- **Omitted fields are absent.** A field declared anywhere along the chain and omitted for a caller
+class the caller does not hold is not a key of the object encoded at the struct type (unique field
+names are part of `StructDef.wf`). Holds for every flag combination and with or without redaction. -/
+theorem omitted_absent (E : Ext) (env : Env) (perms : List String) (redact norm : Bool) (fl : Flags)
+    (cls : String) (v : PyVal) (kvs : List (String × JVal)) (s : StructDef) (f : FieldDef) (c : String)
+    (hs : env.struct? cls = some s)
+    (hnd : nodupS (s.allAttrs.map (·.name)) = true)
+    (hf : f ∈ s.allAttrs) (ho : f.omitted = some c) (hc : ¬ c ∈ perms)
+    (hv : redact = false ∨ ∀ d, v ≠ .dict d)
+    (h : encode E env perms redact norm (.struct fl cls) v = .ok (.obj kvs)) :
+    ¬ f.name ∈ kvs.map (·.1) := fun hk =>
+  name_not_in_fieldsFor s perms f c hnd hf ho hc
+    (struct_keys_in_table E env perms redact norm fl cls v kvs s hs hv h f.name hk)
+
+/-- Non-vacuity: the caller without "c" gets only the public key, the caller with "c" gets both. -/
+example : Ex.keysOf (encode Ex.E0 Ex.env0 [] false false (.struct {} "ns.S") Ex.v0) = some ["a"] ∧
+    Ex.keysOf (encode Ex.E0 Ex.env0 ["c"] false false (.struct {} "ns.S") Ex.v0) = some ["a", "sec"] := by
+  decide +kernel
+
+/-- The excluded corner, shown to be real: with redaction requested and a redactor on the validator,
+a `dict` placed where the struct is expected is not validated and its keys are copied (the values are
+masked). This concerns ill-typed input only; the key is whatever the dict holds. -/
+example : Ex.keysOf (encode Ex.E0 Ex.env0 [] true false (.struct { redactInner := some (.blot none) } "ns.S")
+    (.dict [(.str "sec", .str "y")])) = some ["sec"] := by decide +kernel
+
+/-- Enumerated-subtypes root: the object is `.tag` followed by fields of the table of the value's own
+class for this caller. -/
+theorem tree_keys_in_table (E : Ext) (env : Env) (perms : List String) (redact norm : Bool) (fl : Flags)
+    (cls : String) (v : PyVal) (kvs : List (String × JVal))
+    (hv : redact = false ∨ ∀ d, v ≠ .dict d)
+    (h : encode E env perms redact norm (.tree fl cls) v = .ok (.obj kvs)) :
+    ∃ c slots sd, v = .struct c slots ∧ env.struct? c = some sd ∧
+      ∀ k ∈ kvs.map (·.1), k = ".tag" ∨ k ∈ (sd.fieldsFor perms).map (·.name) := by
+  rcases encode_tree_inv h with ⟨hr, r, hrv⟩ | ⟨_, _, hj⟩ | ⟨c, slots, s, tag, sd, kvs', hvv, _, _, hsd, ha, hj⟩
+  · obtain ⟨d, hd⟩ := redactValue_obj_dict hrv
+    rcases hv with hv | hv
+    · rw [hr] at hv; cases hv
+    · exact absurd hd (hv d)
+  · cases hj
+  · refine ⟨c, slots, sd, hvv, hsd, ?_⟩
+    cases hj
+    intro k hk
+    simp only [List.map_cons, List.mem_cons] at hk
+    rcases hk with hk | hk
+    · exact Or.inl hk
+    · exact Or.inr (assembleStruct_keys _ _ _ _ ha k hk)
+
+/-- Omitted fields are absent under an enumerated-subtypes root as well. -/
+theorem omitted_absent_tree (E : Ext) (env : Env) (perms : List String) (redact norm : Bool) (fl : Flags)
+    (cls c' : String) (slots : List (String × PyVal)) (kvs : List (String × JVal)) (sd : StructDef)
+    (f : FieldDef) (c : String)
+    (hsd : env.struct? c' = some sd)
+    (hnd : nodupS (sd.allAttrs.map (·.name)) = true) (hdot : f.name ≠ ".tag")
+    (hf : f ∈ sd.allAttrs) (ho : f.omitted = some c) (hc : ¬ c ∈ perms)
+    (h : encode E env perms redact norm (.tree fl cls) (.struct c' slots) = .ok (.obj kvs)) :
+    ¬ f.name ∈ kvs.map (·.1) := by
+  intro hk
+  obtain ⟨c2, slots2, sd2, hvv, hsd2, hkeys⟩ :=
+    tree_keys_in_table E env perms redact norm fl cls _ kvs (Or.inr (fun d hd => by cases hd)) h
+  cases hvv
+  rw [hsd] at hsd2
+  cases hsd2
+  rcases hkeys f.name hk with h1 | h1
+  · exact hdot h1
+  · exact name_not_in_fieldsFor sd perms f c hnd hf ho hc h1
+
+example : Ex.keysOf (encode Ex.E0 Ex.env0 [] false false (.tree {} "ns.R") Ex.vRS) = some [".tag", "r", "q"] ∧
+    Ex.keysOf (encode Ex.E0 Ex.env0 ["c"] false false (.tree {} "ns.R") Ex.vRS) = some [".tag", "r", "q", "rsec"] := by
+  decide +kernel
+
+/-- Union values: the tag written under `.tag` is present for the caller, the member's type is that
+of a tag the specification shows the caller, and every key is `.tag`, the tag itself, or (struct-valued
+member, flattened) a field of the member struct's table for this caller. -/
+theorem union_keys_in_table (E : Ext) (env : Env) (perms : List String) (redact norm : Bool) (fl : Flags)
+    (cls c tag : String) (payload : PyVal) (kvs : List (String × JVal)) (u : UnionDef)
+    (hu : env.union? cls = some u)
+    (hv : redact = false ∨ ∀ d, payload ≠ .dict d)
+    (h : encode E env perms redact norm (.union fl cls) (.union c tag payload) = .ok (.obj kvs)) :
+    u.isTagPresent tag perms = true ∧
+    (∃ t ∈ u.tagsSpec perms, t.name = tag ∧ u.valDataType tag perms = some t.ty) ∧
+    ∀ k ∈ kvs.map (·.1), k = ".tag" ∨ k = tag ∨
+      ∃ fl' sc sd, u.valDataType tag perms = some (.struct fl' sc) ∧ env.struct? sc = some sd ∧
+        k ∈ (sd.fieldsFor perms).map (·.name) := by
+  rcases encode_union_inv h with ⟨_, r, hrv⟩ | ⟨_, _, hj⟩ | ⟨c2, tag2, payload2, u2, ft, hvv, hu2, hpres, hft, hcases⟩
+  · obtain ⟨d, hd⟩ := redactValue_obj_dict hrv
+    cases hd
+  · cases hj
+  · cases hvv
+    rw [hu] at hu2
+    cases hu2
+    refine ⟨hpres, ?_, ?_⟩
+    · obtain ⟨t, ht, hn, hty⟩ := valDataType_spec u tag perms ft hft
+      exact ⟨t, ht, hn, by rw [hft, hty]⟩
+    · rcases hcases with hj | ⟨j', hj', ⟨fl', sc, kvs', hftS, hjo, hj⟩ | hj⟩
+      · cases hj
+        intro k hk
+        simp at hk
+        exact Or.inl hk
+      · cases hj
+        subst hftS hjo
+        intro k hk
+        simp only [List.map_cons, List.mem_cons] at hk
+        rcases hk with hk | hk
+        · exact Or.inl hk
+        · right; right
+          rcases encode_struct_inv hj' with ⟨hr, r, hrv⟩ | ⟨_, _, hjn⟩ | ⟨c3, slots, s', kvs3, _, hs', ha, hj3⟩
+          · obtain ⟨d, hd⟩ := redactValue_obj_dict hrv
+            rcases hv with hv | hv
+            · rw [hr] at hv; cases hv
+            · exact absurd hd (hv d)
+          · cases hjn
+          · cases hj3
+            exact ⟨fl', sc, s', hft, hs', assembleStruct_keys _ _ _ _ ha k hk⟩
+      · cases hj
+        intro k hk
+        simp at hk
+        rcases hk with hk | hk
+        · exact Or.inl hk
+        · exact Or.inr (Or.inl hk)
+
+example : Ex.keysOf (encode Ex.E0 Ex.env0 [] false false (.union {} "ns.U") (.union "ns.U" "st" Ex.v0))
+      = some [".tag", "a"] ∧
+    Ex.keysOf (encode Ex.E0 Ex.env0 ["c"] false false (.union {} "ns.U") (.union "ns.U" "st" Ex.v0))
+      = some [".tag", "a", "sec"] := by decide +kernel
+
+/-! ### 3. A union value whose tag the caller may not see is refused -/
+
+/-- **Omitted tags are refused.** Encoding a union value whose tag is not present for the caller is a
+validation error, whatever the payload, unless redaction replaces the whole value (then the output is
+the mask or hash and the tag does not appear either, see `redacted_outer`). -/
+theorem omitted_tag_refused (E : Ext) (env : Env) (perms : List String) (redact norm : Bool) (fl : Flags)
+    (cls c tag : String) (payload : PyVal) (u : UnionDef)
+    (hu : env.union? cls = some u) (hp : u.isTagPresent tag perms = false)
+    (hnr : redact = false ∨ (fl.redactInner = none ∧ (fl.nullable = true → fl.redactOuter = none))) :
+    ∃ hint, encode E env perms redact norm (.union fl cls) (.union c tag payload) = .error (.verr hint) :=
+  encode_union_tag_absent E env perms redact norm fl cls c tag payload u hu hp hnr
+
+/-- With unique tag names: a tag omitted for a caller class the caller does not hold is refused. -/
+theorem omitted_tag_refused_of_omitted (E : Ext) (env : Env) (perms : List String) (redact norm : Bool)
+    (fl : Flags) (cls c : String) (payload : PyVal) (u : UnionDef) (t : TagDef) (p : String)
+    (hu : env.union? cls = some u)
+    (hnd : nodupS ((u.levels.flatMap (·.tags)).map (·.name)) = true)
+    (ht : t ∈ u.levels.flatMap (·.tags)) (ho : t.omitted = some p) (hc : ¬ p ∈ perms)
+    (hnr : redact = false ∨ (fl.redactInner = none ∧ (fl.nullable = true → fl.redactOuter = none))) :
+    ∃ hint, encode E env perms redact norm (.union fl cls) (.union c t.name payload) = .error (.verr hint) :=
+  omitted_tag_refused E env perms redact norm fl cls c t.name payload u hu
+    (isTagPresent_false_of_omitted u perms t p hnd ht ho hc) hnr
+
+example : Ex.isVerrR (encode Ex.E0 Ex.env0 [] false false (.union {} "ns.U") (.union "ns.U" "hid" .none)) = true ∧
+    Ex.keysOf (encode Ex.E0 Ex.env0 ["c"] false false (.union {} "ns.U") (.union "ns.U" "hid" .none))
+      = some [".tag"] := by decide +kernel
+
+/-! ### 4. Strict decoding refuses members the caller may not supply -/
+
+/-- Strict `decode_struct`: an object member whose key is not a field of the caller's table (and does
+not start with ".tag") is a validation error. -/
+theorem unknown_rejected_strict (E : Ext) (env : Env) (perms : List String) (cls : String) (s : StructDef)
+    (kvs : List (String × JVal)) (children : List (String × R PyVal)) (hs : env.struct? cls = some s)
+    (k : String) (x : JVal) (hk : (k, x) ∈ kvs)
+    (hnot : ¬ k ∈ (s.fieldsFor perms).map (·.name)) (htag : k.startsWith ".tag" = false) :
+    finishStruct E env perms true cls kvs children = .error (.verr "unknown field") :=
+  finishStruct_unknown E env perms cls s kvs children hs k x hk hnot htag
+
+/-- **Omitted fields cannot be supplied in strict mode.** Decoding, at a struct type, an object that
+has a member named like a field omitted for a caller class the caller does not hold is a validation
+error. (`StructDef.wf` gives unique names and names that do not start with "."; `fl` arbitrary.) -/
+theorem omitted_rejected_strict (E : Ext) (env : Env) (perms : List String) (fl : Flags) (cls : String)
+    (s : StructDef) (kvs : List (String × JVal)) (f : FieldDef) (c : String) (x : JVal)
+    (hs : env.struct? cls = some s)
+    (hnd : nodupS (s.allAttrs.map (·.name)) = true) (hdot : f.name.startsWith "." = false)
+    (hf : f ∈ s.allAttrs) (ho : f.omitted = some c) (hc : ¬ c ∈ perms)
+    (hk : (f.name, x) ∈ kvs) :
+    decode E env perms true (.struct fl cls) (.obj kvs) = .error (.verr "unknown field") := by
+  rw [decode_struct_obj]
+  exact finishStruct_unknown E env perms cls s kvs _ hs f.name x hk
+    (name_not_in_fieldsFor s perms f c hnd hf ho hc) (not_startsWith_tag_of_not_startsWith_dot _ hdot)
+
+/-- the same from `StructDef.wf` -/
+theorem omitted_rejected_strict_wf (E : Ext) (env : Env) (perms : List String) (fl : Flags) (cls : String)
+    (s : StructDef) (kvs : List (String × JVal)) (f : FieldDef) (c : String) (x : JVal)
+    (hs : env.struct? cls = some s) (hwf : s.wf env = true)
+    (hf : f ∈ s.allAttrs) (ho : f.omitted = some c) (hc : ¬ c ∈ perms)
+    (hk : (f.name, x) ∈ kvs) :
+    decode E env perms true (.struct fl cls) (.obj kvs) = .error (.verr "unknown field") := by
+  simp only [StructDef.wf, Bool.and_eq_true] at hwf
+  have hnd := hwf.1.1.1.1.2
+  have hall := hwf.1.1.1.2
+  rw [List.all_eq_true] at hall
+  have hfw := hall f hf
+  simp only [Bool.and_eq_true, Bool.not_eq_true'] at hfw
+  exact omitted_rejected_strict E env perms fl cls s kvs f c x hs hnd hfw.1 hf ho hc hk
+
+example : Ex.isVerrR (decode Ex.E0 Ex.env0 [] true (.struct {} "ns.S")
+      (.obj [("a", .str "x"), ("sec", .str "y")])) = true ∧
+    Ex.isVerrR (decode Ex.E0 Ex.env0 ["c"] true (.struct {} "ns.S")
+      (.obj [("a", .str "x"), ("sec", .str "y")])) = false ∧
+    Ex.isVerrR (decode Ex.E0 Ex.env0 [] true (.struct {} "ns.S") (.obj [("a", .str "x")])) = false := by
+  decide +kernel
+
+example : Ex.sS.wf Ex.env0 = true ∧ Ex.env0.struct? "ns.S" = some Ex.sS := by
+  constructor
+  · decide +kernel
+  · rfl
+
+/-! ### 5. Omitted members are present for callers holding the permission -/
+
+/-- **Present with the permission.** If the caller holds `c`, a field omitted for `c` whose slot is
+set to a value other than None is a key of the object encoded at the struct type. -/
+theorem present_with_perm (E : Ext) (env : Env) (perms : List String) (redact norm : Bool) (fl : Flags)
+    (cls c' : String) (slots : List (String × PyVal)) (kvs : List (String × JVal)) (s : StructDef)
+    (f : FieldDef) (c : String) (x : PyVal)
+    (hs : env.struct? cls = some s)
+    (hf : f ∈ s.allAttrs) (ho : f.omitted = some c) (hc : c ∈ perms)
+    (hx : lookupSlot f.name slots = some x) (hnn : isNone x = false)
+    (h : encode E env perms redact norm (.struct fl cls) (.struct c' slots) = .ok (.obj kvs)) :
+    f.name ∈ kvs.map (·.1) := by
+  have hft := mem_fieldsFor_of_perm s perms f c hf ho hc
+  rcases encode_struct_inv h with ⟨_, r, hrv⟩ | ⟨_, _, hj⟩ | ⟨c3, slots3, s', kvs3, hvv, hs', ha, hj⟩
+  · obtain ⟨d, hd⟩ := redactValue_obj_dict hrv
+    cases hd
+  · cases hj
+  · cases hvv
+    cases hj
+    rw [hs] at hs'
+    cases hs'
+    exact assembleStruct_has_key _ _ _ _ ha f hft
+      (lookupEnc_encodeSlots_isSome E env perms redact _ _ f hft x hx hnn)
+
+/-- the same under an enumerated-subtypes root -/
+theorem present_with_perm_tree (E : Ext) (env : Env) (perms : List String) (redact norm : Bool) (fl : Flags)
+    (cls c' : String) (slots : List (String × PyVal)) (kvs : List (String × JVal)) (sd : StructDef)
+    (f : FieldDef) (c : String) (x : PyVal)
+    (hsd : env.struct? c' = some sd)
+    (hf : f ∈ sd.allAttrs) (ho : f.omitted = some c) (hc : c ∈ perms)
+    (hx : lookupSlot f.name slots = some x) (hnn : isNone x = false)
+    (h : encode E env perms redact norm (.tree fl cls) (.struct c' slots) = .ok (.obj kvs)) :
+    f.name ∈ kvs.map (·.1) := by
+  have hft := mem_fieldsFor_of_perm sd perms f c hf ho hc
+  rcases encode_tree_inv h with ⟨_, r, hrv⟩ | ⟨_, _, hj⟩ | ⟨c3, slots3, s, tag, sd', kvs3, hvv, _, _, hsd', ha, hj⟩
+  · obtain ⟨d, hd⟩ := redactValue_obj_dict hrv
+    cases hd
+  · cases hj
+  · cases hvv
+    cases hj
+    rw [hsd] at hsd'
+    cases hsd'
+    simp only [List.map_cons, List.mem_cons]
+    exact Or.inr (assembleStruct_has_key _ _ _ _ ha f hft
+      (lookupEnc_encodeSlots_isSome E env perms redact _ _ f hft x hx hnn))
+
+/-- Non-vacuity is the second halves of the examples in section 2 ("sec" / "rsec" are keys for the
+caller holding "c"); the hypotheses on the slot: -/
+example : lookupSlot "sec" [("a", PyVal.str "x"), ("sec", .str "y")] = some (.str "y") ∧
+    isNone (.str "y") = false := ⟨by simp [lookupSlot], rfl⟩
 
 end StoneVerif.C13
